@@ -317,3 +317,139 @@ def loops_over(cfg: CFG, suffix, du: Optional[DefUse] = None, exact: bool = Fals
                 out.append(n)
                 break
     return out
+
+
+# ---------------------------------------------------------------- path-sensitive constant propagation
+
+_UNKNOWN = object()
+
+
+def _cval(e: ast.AST, env: dict, fold=None):
+    if isinstance(e, ast.Constant):
+        return e.value
+    if isinstance(e, ast.Name):
+        if e.id in env:
+            return env[e.id]
+        if fold is not None:
+            v = fold(e)
+            if v is not None:
+                return v
+        return _UNKNOWN
+    if fold is not None:
+        v = fold(e)
+        if v is not None:
+            return v
+    return _UNKNOWN
+
+
+def eval_test_const(t: ast.AST, env: dict, fold=None):
+    """True / False / None (undecided) for test atom *t* under the constant environment *env*."""
+    if isinstance(t, ast.Name):
+        v = _cval(t, env, fold)
+        return None if v is _UNKNOWN else bool(v)
+    if isinstance(t, ast.Compare) and len(t.ops) == 1:
+        l, r = _cval(t.left, env, fold), _cval(t.comparators[0], env, fold)
+        if l is _UNKNOWN or r is _UNKNOWN:
+            return None
+        op = t.ops[0]
+        try:
+            if isinstance(op, ast.Eq):
+                return l == r
+            if isinstance(op, ast.NotEq):
+                return l != r
+            if isinstance(op, ast.Is):
+                return l is r if (l is None or r is None) else l == r
+            if isinstance(op, ast.IsNot):
+                return not (l is r if (l is None or r is None) else l == r)
+            if isinstance(op, ast.In):
+                return l in r
+            if isinstance(op, ast.NotIn):
+                return l not in r
+        except TypeError:
+            return None
+    return None
+
+
+def const_walk(cfg: CFG, starts: Iterable[Node], env0: dict, stop_nodes: Iterable[Node] = (), fold=None, limit: int = 4000):
+    """Explore the CFG from *starts* carrying a constant environment (names -> constants): assignments of
+    constants / known names update it, any other assignment forgets the name, decidable tests prune the walk.
+    Returns {node id: [environments with which the node is reached]}.  Exceptional edges are not followed."""
+    stop = {n.id for n in stop_nodes}
+    seen = set()
+    out = {}
+    todo = [(n, dict(env0)) for n in starts]
+    steps = 0
+    from ..dataflow import _targets
+    while todo:
+        n, env = todo.pop()
+        key = (n.id, tuple(sorted((k, repr(v)) for k, v in env.items())))
+        if key in seen:
+            continue
+        seen.add(key)
+        steps += 1
+        if steps > limit:
+            raise AnalysisError("constant walk in %s exceeds %d states" % (cfg.fi.qualname, limit))
+        out.setdefault(n.id, []).append(env)
+        if n.id in stop:
+            continue
+        env2 = env
+        a = n.ast
+        if n.kind == "stmt" and isinstance(a, (ast.Assign, ast.AnnAssign, ast.AugAssign)):
+            env2 = dict(env)
+            tgts = a.targets if isinstance(a, ast.Assign) else [a.target]
+            val = getattr(a, "value", None)
+            for t in tgts:
+                if isinstance(t, ast.Name) and isinstance(a, (ast.Assign, ast.AnnAssign)) and val is not None:
+                    v = _cval(val, env, fold)
+                    if v is _UNKNOWN:
+                        env2.pop(t.id, None)
+                    else:
+                        env2[t.id] = v
+                else:
+                    for nm, _i in _targets(t):
+                        env2.pop(nm, None)
+        elif n.kind in ("for", "with_enter", "handler"):
+            env2 = dict(env)
+            tg = []
+            if n.kind == "for":
+                tg = _targets(a.target)
+            elif n.kind == "with_enter":
+                tg = [x for it in a.items if it.optional_vars is not None for x in _targets(it.optional_vars)]
+            elif a.name:
+                tg = [(a.name, ())]
+            for nm, _i in tg:
+                env2.pop(nm, None)
+        if n.kind == "test":
+            d = eval_test_const(a, env, fold)
+            for m, l in n.succ:
+                if l == "exc":
+                    continue
+                if d is None or (d and l == "t") or (not d and l == "f") or l not in ("t", "f"):
+                    todo.append((m, env2))
+            continue
+        for m, l in n.succ:
+            if l != "exc":
+                todo.append((m, env2))
+    return out
+
+
+def const_at(ctx, fi: FuncInfo, du: DefUse, node: Node, e: ast.AST):
+    """Constant value of *e* at *node*: folded directly, or through local names / parameters bound by an inlined call
+    (all reaching definitions must agree)."""
+    from ..dataflow import origins
+    v = ctx.P.try_fold(fi.module, e)
+    if v is not None:
+        return v
+    if isinstance(e, ast.Name):
+        vals = []
+        for o in origins(du, node, e):
+            if o.kind != "expr" or o.leaf is None or o.path:
+                return None
+            c = ctx.P.try_fold(fi.module, o.leaf)
+            if c is None:
+                return None
+            if c not in vals:
+                vals.append(c)
+        if len(vals) == 1:
+            return vals[0]
+    return None
